@@ -72,6 +72,10 @@ type Config struct {
 	TraceLimit int     // keep the last N trace records (0 = 256)
 	Verbose    bool
 	EchoPrintf bool // verbose trace also shows kevo's own Printf debugging
+	// SpinLimit > 0: the run is a livelock if that many scheduling steps are
+	// taken in a row without virtual time advancing (a task that spins on a
+	// value nobody will change keeps the clock frozen: something is always runnable)
+	SpinLimit int64
 }
 
 type Task struct {
@@ -86,6 +90,7 @@ type Task struct {
 	Gen       int
 	die       bool
 	Steps     int64
+	spin      int64 // steps since virtual time last advanced
 	site      string
 }
 
@@ -104,6 +109,7 @@ type Outcome struct {
 	Truncated   bool   // step budget exhausted
 	Deadlock    bool   // nothing runnable, nothing in the runtime
 	Hang        bool   // MaxVirtual exceeded
+	Livelock    bool   // SpinLimit steps without virtual time advancing
 	Panic       string // a task panicked
 	Detail      string // wait-for description for Deadlock/Hang
 	TraceHash   uint64
@@ -138,6 +144,9 @@ type Sim struct {
 	lastClass int
 	started   bool
 	stallNs   int64 // virtual time spent in injected stalls
+	lastVt    int64 // virtual time at the latest step that saw it change
+	lastVtAt  int64 // ... and that step
+	wantSites bool  // record yield sites (a livelock report is being prepared)
 	skew      int64 // logical clock skew (ns) added to time.Now for kevo code
 
 	// OnStep, if set, is called by the scheduler after every synctest.Wait
@@ -298,11 +307,23 @@ func Active() bool {
 // Cur returns the running task if the caller is it, else nil.
 func Cur() *Task {
 	s := S
-	if s == nil || s.curp.Load() == nil {
+	if s == nil {
 		return nil
 	}
-	if s.curp.Load().goid == runtime.SimGoid() {
-		return s.curp.Load()
+	g := runtime.SimGoid()
+	if c := s.curp.Load(); c != nil && c.goid == g {
+		return c
+	}
+	if s.started && !s.dying {
+		// A task that blocked inside uninstrumented library code (a gRPC
+		// server's GracefulStop, say) was classified as in-runtime and lost the
+		// baton; nothing re-acquired it when the call returned. Every simulator
+		// primitive asks Cur first, so the task queues up here before it touches
+		// simulated state, instead of running beside the scheduled task.
+		Reacquire()
+		if c := s.curp.Load(); c != nil && c.goid == g {
+			return c
+		}
 	}
 	return nil
 }
@@ -358,7 +379,7 @@ func Yield(class int) {
 		return
 	}
 	s.out.YieldsTaken[class]++
-	if s.cfg.Verbose {
+	if s.cfg.Verbose || s.wantSites {
 		t.site = callerSite()
 	}
 	t.blockedOn = nil
@@ -786,9 +807,24 @@ func (s *Sim) loop() {
 			// tasks woken meanwhile have re-parked or will; loop re-waits
 			continue
 		}
+		if s.cfg.SpinLimit > 0 {
+			if v := s.vnow(); v != s.lastVt {
+				s.lastVt, s.lastVtAt, s.wantSites = v, s.step, false
+				for _, t := range s.tasks {
+					t.spin = 0
+				}
+			} else if n := s.step - s.lastVtAt; n > s.cfg.SpinLimit {
+				s.out.Livelock = true
+				s.out.Detail = fmt.Sprintf("virtual time has not advanced for %d scheduling steps although tasks kept running\n", n) + s.describe()
+				return
+			} else if n > s.cfg.SpinLimit/2 {
+				s.wantSites = true
+			}
+		}
 		t := s.choose(runnable)
 		s.step++
 		t.Steps++
+		t.spin++
 		s.hashIn(uint64(t.ID), uint64(s.step), uint64(s.vnow()))
 		if s.cfg.Verbose {
 			s.addTrace(traceRec{step: s.step, task: t.ID, class: int8(s.lastClass), vt: s.vnow(), note: t.Name + " " + t.site})
@@ -853,6 +889,9 @@ func (s *Sim) describe() string {
 		}
 		if t.site != "" {
 			fmt.Fprintf(&b, " at %s", t.site)
+		}
+		if s.out.Livelock && t.spin > 0 {
+			fmt.Fprintf(&b, " (%d steps since the clock last moved)", t.spin)
 		}
 		b.WriteString("\n")
 	}
